@@ -187,7 +187,25 @@ theorem crack_hardened_refused (p c : XKey) (h1 : c.depth = p.depth + 1) (h2 : c
 
 /-! ## T6 — path spellings -/
 
--- T6-TEXT-PLACEHOLDER
+/-- T6: reading back the text written for a list of indexes gives the list, for either written symbol. -/
+theorem path_text_roundtrip (idx : List Nat) (hsym : Char) (hh : hsym = 'h' ∨ hsym = '\'')
+    (hi : ∀ i ∈ idx, i < 2 ^ 32) (hl : idx.length ≤ 255) :
+    ∃ s, DerPath.strFromIndexes idx [hsym] = .ok s ∧ DerPath.indexesFromStr s = .ok idx :=
+  DerPath.str_roundtrip idx hsym hh hi hl
+
+/-- T6: the three hardening markers `h`, `'`, `H` are read alike: digits followed by any of them is the
+    hardened index; without a marker it is the plain one. -/
+theorem hardening_markers (n : Nat) (hn : n < 2 ^ 31) (c : Char) (hc : c ∈ Gen.Bip32.HARDENINGS) :
+    DerPath.indexOfStep Gen.Bip32.HARDENINGS false (Nat.toDigits 10 n ++ [c]) = .ok (n + 2 ^ 31) ∧
+    DerPath.indexOfStep Gen.Bip32.HARDENINGS false (Nat.toDigits 10 n) = .ok n :=
+  DerPath.step_markers n hn c hc
+
+/-- T6 (boundary): `2^31 - 1` is the last plain number; `2^31` and above must be spelled with a marker. -/
+theorem hardened_boundary (n : Nat) (hn : 2 ^ 31 ≤ n) :
+    DerPath.indexOfStep Gen.Bip32.HARDENINGS false (Nat.toDigits 10 n) = .error .index ∧
+    DerPath.indexOfStep Gen.Bip32.HARDENINGS false (Nat.toDigits 10 (2 ^ 31 - 1)) = .ok (2 ^ 31 - 1) :=
+  DerPath.step_boundary n hn
+
 /-- T6 (bytes form): the 4-byte little-endian concatenation reads back to the list. -/
 theorem path_bytes_roundtrip (idx : List Nat) (hi : ∀ i ∈ idx, i < 2 ^ 32) :
     ∃ b, DerPath.bytesFromIndexes idx = .ok b ∧ DerPath.indexesFromBytes b = .ok idx :=
